@@ -172,6 +172,32 @@ theorem C15_grouped_first_wins {V : Type} (members pre post : List (Rec V)) (x :
   rw [this]
   exact alGet_flatMap_first (·.slots) pre post x k v hpre hx
 
+/-- GROUPED RECORD, dictionary view: `_asdict()` holds, for EVERY key of the flat view - also one spelled like an
+    attribute of the group object itself (`name`, `records`, `descriptors`, `flat_fields`) - the value of the first
+    member that has the slot. (Before fix 619dd93 the value was read with `getattr(group, key)`; the premise is the
+    regenerated source fact.) -/
+theorem C15_grouped_asdict_from_provider {V : Type} (own : Str → V) (members pre post : List (Rec V)) (x : Rec V)
+    (k : Str) (v : V) (hsplit : members = pre ++ x :: post) (hpre : ∀ p ∈ pre, k ∉ keys p.slots)
+    (hx : alGet x.slots k = some v) :
+    groupedAsdictGet own members k = some v := by
+  have hgen : Gen.groupedAsdictFromProvider = true := by decide
+  unfold groupedAsdictGet
+  rw [if_pos hgen]
+  unfold groupedGet
+  rw [chainGet_eq, hsplit]
+  have : ((pre ++ x :: post).map (·.slots)).flatten = (pre ++ x :: post).flatMap (·.slots) := by
+    simp [List.flatMap_def]
+  rw [this]
+  exact alGet_flatMap_first (·.slots) pre post x k v hpre hx
+
+/-- … whereas ATTRIBUTE access on the group cannot serve such a field: `group.name` is the group's own type name
+    whatever the members hold (public API; recorded as a limitation, not repaired). -/
+theorem C15_grouped_getattr_own_attribute_wins {V : Type} (own : Str → V) (members : List (Rec V)) :
+    groupedGetattr own members (cps "name") = some (own (cps "name")) := by
+  have h : groupOwnAttrs.contains (cps "name") = true := by decide
+  unfold groupedGetattr
+  rw [if_pos h]
+
 /-- … and a name no member has is not an attribute of the group. -/
 theorem C15_grouped_missing {V : Type} (members : List (Rec V)) (k : Str) (h : ∀ m ∈ members, k ∉ keys m.slots) :
     groupedGet members k = Option.none := by
